@@ -52,6 +52,11 @@ pub fn scenarios(tier: &str) -> Vec<Scenario> {
                 out.push(b.scenario(w.clone(), b.params(Pk::Prm, r, 1.0, 0.0), &format!("C18/{kit}/{}/PRMr{r}", w.name)));
             }
         }
+        // degenerate connection radii (free world): nothing is "closer than" 0, a negative number or NaN - no links,
+        // no start connection, no answer
+        for r in [f64::NAN, 0.0, -1.0] {
+            out.push(b.scenario(b.world_free(), b.params(Pk::Prm, r, 1.0, 0.0), &format!("C18/{kit}/free/PRMr{r}/degenerate-radius")));
+        }
         // a knife-edge world (R^2): a sliver whose closed face sits EXACTLY on a check point of the motion
         // between two alphabet states in one direction, an ulp off it in the other. Whether such a link
         // exists is the implementation's business (the sliver is far below the resolution) - but a link is
